@@ -259,7 +259,8 @@ def run(ctx):
         'honest backend: a reader serves exactly the bytes its descriptor announces; item names are valid UTF-8; descriptors carry well-formed digests',
         'the sha256 digest of a request body is computed by the harness (Go crypto/sha256); the JSON class of the six table bodies is part of the case, any other body is "other" (manifest PUT then only has to satisfy the universal clauses when the body is parsed)',
         'numerals of 10 or more digits (n, Range, Content-Range) are not evaluated (TLC integers are 32 bit): such requests only have to satisfy the universal clauses',
-        'a Range header other than bytes=A-B / bytes=A- with A <= B may be ignored or refused (universal clauses only); LocationsForDescriptor / WriteError options are left at their defaults',
+        'a Range header other than bytes=A-B / bytes=A- with A <= B may be ignored or refused (universal clauses only); WriteError is left at its default; LocationsForDescriptor is exercised with a function that ignores its isManifest argument (returns one location, several, none, or an error)',
+        'a manifest PUT addressed by a well-formed digest that is not the sha256 digest of the body is refused with status 400 (DIGEST_INVALID today) - also when it is the TRUE sha384 / sha512 digest of the body: the handler computes sha256 only; modelled as the code is',
         'TLC and the Json/IOUtils community modules',
     ]
     return vlib.finish(ctx, rule='one ServeHTTP call per scenario; TLC splits the logged path at "/", classifies every segment with the OciRef recognisers and the '
